@@ -13,6 +13,14 @@ TABLES = {
 WIDTHS = {"sid": [1, 2, 1, 3], "sid0": [2, 0, 1, 3], "seq": [2, 0, 3, 1]}     # sid0: an identifier column with one empty name
 
 
+def _width(skel, kind, r):
+    """width of the text cell of row r; skel["sid_widths"] overrides the identifier widths (e.g. 4, 12, 2: widths whose order as numbers
+    and as text differ)"""
+    if kind == "sid" and skel.get("sid_widths"):
+        return skel["sid_widths"][r]
+    return WIDTHS[kind][r]
+
+
 def declare(V, skel, prefix="t"):
     n = skel["n"]
     for c, (nm, kind) in enumerate(TABLES[skel["table"]]):
@@ -22,7 +30,7 @@ def declare(V, skel, prefix="t"):
             elif kind == "strand":
                 V.int(f"{prefix}{r}_{c}", 0, 2)
             else:
-                for j in range(WIDTHS[kind][r]):
+                for j in range(_width(skel, kind, r)):
                     V.int(f"{prefix}{r}_{c}_{j}", 65, 90)
 
 
@@ -39,8 +47,8 @@ def build(ctx, skel, x, prefix="t", rows=None):
         elif kind == "strand":
             cols[nm] = EncodedArray(ctx.arr([x[f"{prefix}{r}_{c}"] for r in rows], "uint8"), StrandEncoding)
         else:
-            flat = [x[f"{prefix}{r}_{c}_{j}"] for r in rows for j in range(WIDTHS[kind][r])]
-            cols[nm] = EncodedRaggedArray(EncodedArray(ctx.arr(flat, "uint8"), BaseEncoding), [WIDTHS[kind][r] for r in rows])
+            flat = [x[f"{prefix}{r}_{c}_{j}"] for r in rows for j in range(_width(skel, kind, r))]
+            cols[nm] = EncodedRaggedArray(EncodedArray(ctx.arr(flat, "uint8"), BaseEncoding), [_width(skel, kind, r) for r in rows])
     return cls(**cols)
 
 
@@ -61,13 +69,13 @@ def model_rows(skel, g, prefix="t"):
             if kind in ("int", "strand"):
                 row.append(g(f"{prefix}{r}_{c}"))
             else:
-                row.append([g(f"{prefix}{r}_{c}_{j}") for j in range(WIDTHS[kind][r])])
+                row.append([g(f"{prefix}{r}_{c}_{j}") for j in range(_width(skel, kind, r))])
         rows.append(row)
     return rows
 
 
 OPS = ("fancy", "mask", "slice_tail", "slice_rev", "concat", "sort_by", "replace", "add_fields", "add_fields_twice", "single", "rows_roundtrip",
-       "replace_wrong_len", "mask_list", "fancy_list", "concat_empty", "concat_with_empty")
+       "replace_wrong_len", "mask_list", "fancy_list", "concat_empty", "concat_with_empty", "concat_built")
 
 
 class TableOps(Harness):
@@ -87,6 +95,8 @@ class TableOps(Harness):
                 if op in ("sort_by", "replace", "add_fields", "add_fields_twice", "rows_roundtrip", "replace_wrong_len") and tab == "seqentry":
                     continue
                 out.append(dict(table=tab, n=n, op=op))
+            # identifiers of widths 4, 12, 2 and 9, 10, 1 in separately built one-row tables
+            out += [dict(table=tab, n=3, op="concat_built", sid_widths=w) for w in ([4, 12, 2], [9, 10, 1], [12, 4, 11])]
             if tab != "seqentry":      # the key column held in an unsigned dtype (differences of unsigned numbers wrap around)
                 out += [dict(table=tab, n=n, op="sort_by", start_dtype=dt_) for dt_ in ("uint8", "uint16")]
             if tier == "thorough":
@@ -139,6 +149,8 @@ class TableOps(Harness):
             return t[::-1]
         if op == "concat":
             return ctx.np.concatenate([t, t[:2]])
+        if op == "concat_built":    # one-row tables built separately (each identifier column has its own width), put together
+            return ctx.np.concatenate([build(ctx, skel, x, rows=[r]) for r in range(n)])
         if op == "concat_empty":    # only row-less operands
             return ctx.np.concatenate([t[0:0], t[n:], t[0:0]])
         if op == "concat_with_empty":
@@ -210,7 +222,7 @@ class TableOps(Harness):
             return [rows[i] for i in idx]
         if op == "concat_empty":
             return []
-        if op == "concat_with_empty":
+        if op in ("concat_with_empty", "concat_built"):
             return list(rows)
         if op == "slice_tail":
             return rows[1:]
@@ -363,7 +375,8 @@ class Nested(Harness):
               "thorough": "same"}
 
     def skeletons(self, tier, seed):
-        return [dict(case="nested", n=2), dict(case="nested", n=3), dict(case="typed", n=1), dict(case="typed", n=3)]
+        return [dict(case="nested", n=2), dict(case="nested", n=3), dict(case="typed", n=1), dict(case="typed", n=3),
+                dict(case="nested", n=2, depth=2)]       # a nested-table column whose rows again hold a nested-table column
 
     def inputs(self, skel, V):
         if skel["case"] == "nested":
@@ -390,6 +403,18 @@ class Nested(Harness):
                 score: int
             col = lambda f: ctx.arr([x[f"{f}{r}"] for r in range(n)], "int64")
             pair = Pair(Person(col("fa"), col("fh")), Person(col("sa"), col("sh")), col("sc"))
+            if skel.get("depth") == 2:
+                @bnpdataclass
+                class Match:
+                    pair: Pair
+                    round: int
+                match = Match(pair, col("sc"))
+                d = match.todict()
+                back = Match.from_dict(d)
+                assert ctx.lst(back.round) == ctx.lst(back.pair.score)
+                back = back.pair
+                return dict(first=[ctx.lst(back.first.age), ctx.lst(back.first.height)], second=[ctx.lst(back.second.age), ctx.lst(back.second.height)],
+                            score=ctx.lst(back.score), keys=sorted(d))
             back = Pair.from_dict(pair.todict())
             return dict(first=[ctx.lst(back.first.age), ctx.lst(back.first.height)], second=[ctx.lst(back.second.age), ctx.lst(back.second.height)],
                         score=ctx.lst(back.score), keys=sorted(pair.todict()))
@@ -418,6 +443,8 @@ class Nested(Harness):
             return z3.And(z3.Not(anyN), *[TI(d) == l for d, l in zip(out["decoded"], letters)])
         if isinstance(out, Exc):
             return False
+        if skel.get("depth") == 2 and out["keys"] != sorted(["pair.first.age", "pair.first.height", "pair.second.age", "pair.second.height", "pair.score", "round"]):
+            return False          # the deep columns carry their full dotted path
         conj = []
         for key, fs in (("first", ("fa", "fh")), ("second", ("sa", "sh"))):
             for i, f in enumerate(fs):
@@ -441,6 +468,8 @@ class Nested(Harness):
         exp = dict(first=[[cx[f"fa{r}"] for r in range(n)], [cx[f"fh{r}"] for r in range(n)]],
                    second=[[cx[f"sa{r}"] for r in range(n)], [cx[f"sh{r}"] for r in range(n)]], score=[cx[f"sc{r}"] for r in range(n)])
         got = {k: cout[k] for k in exp}
+        if skel.get("depth") == 2 and cout["keys"] != sorted(["pair.first.age", "pair.first.height", "pair.second.age", "pair.second.height", "pair.score", "round"]):
+            return f"todict() of a table nested two levels deep has the keys {cout['keys']}"
         return None if got == exp else f"from_dict(todict()) of nested table: {got}, expected {exp}"
 
 
